@@ -223,13 +223,13 @@ func runTransitionOpts(cfg *config, opts map[string]pkgOpts, ops []op, res *engi
 		}
 		preCache[ck] = pi
 	}
-	gPre, aliasedPre := pre.abstract()
+	gPre, _ := pre.abstract(false)
 	if n == 0 {
-		// root: only the coherence of the initial state is judged
+		// root: the state the creation must produce
 		if created == nil {
 			created = []*graph{newGraph(cfg)}
 		}
-		judge(cfg, res, nil, slots, pi.obs, nil, gPre, aliasedPre, pre, created, pre, nil)
+		judge(cfg, res, nil, slots, pi.obs, nil, pre, pre, created, nil)
 		res.Outcome = digest(pi.obs, nil)
 		return &transition{pre: pre, post: pre}
 	}
@@ -242,18 +242,7 @@ func runTransitionOpts(cfg *config, opts map[string]pkgOpts, ops []op, res *engi
 		res.Fail("harness:probe-mutated-state", "before: "+postKey+"\nafter:  "+k2)
 		return nil
 	}
-	alts, mayErr := gPre.step(mut{}, last)
-	if opErr != nil {
-		switch {
-		case opErr.GoFault:
-			res.Fail(fmt.Sprintf("op=%s kind=go-fault", last.kind), fmt.Sprintf("%s in state %s => %s", last, gPre, opErr))
-		case !mayErr:
-			res.Fail(fmt.Sprintf("op=%s kind=unexpected-error class=%s", last.kind, opErr.Class), fmt.Sprintf("%s in state %s => %s", last, gPre, opErr))
-		default:
-			alts = []*graph{gPre.clone()}
-		}
-	}
-	judge(cfg, res, &last, slots, obs, pi.obs, gPre, aliasedPre, post, alts, pre, opErr)
+	judge(cfg, res, &last, slots, obs, pi.obs, pre, post, nil, opErr)
 	count(cfg, res, &last, gPre)
 	res.Outcome = digest(obs, opErr)
 	return &transition{pre: pre, post: post}
@@ -321,62 +310,149 @@ func slotAliased(sl slot, aliased map[string]bool) bool {
 // slots of a (package, name) whose pre-state entry is shared as a definition by
 // two packages / hidden / an orphaned copy, and every slot of a name when the
 // operation acts on such an entry.
-func judge(cfg *config, res *engine.Result, last *op, slots []slot, obs, obsPre []observation, gPre *graph,
-	aliasedPre map[string]bool, post *dump, alts []*graph, pre *dump, opErr *lisp.Err) {
+func judge(cfg *config, res *engine.Result, last *op, slots []slot, obs, obsPre []observation,
+	pre, post *dump, created []*graph, opErr *lisp.Err) {
 
-	skip := map[int]bool{}
-	badName := map[string]bool{} // names not judged at all in this transition
-	if last != nil {
-		mark := func(p int) {
-			for k := range aliasedPre {
-				// key: <pkg digit><kind><name>
-				if int(k[0]-'0') == p {
-					badName[k[1:]] = true
-				}
-			}
-		}
-		if 0 <= last.argPk {
-			mark(last.actor)
-			mark(last.argPk)
-		} else {
-			for _, kind := range []byte{'v', 'f'} {
-				if aliasedPre[fmt.Sprintf("%d%c%s", last.actor, kind, last.arg)] {
-					badName["v"+last.arg] = true
-					badName["f"+last.arg] = true
-				}
-			}
-		}
-	}
-	for i, sl := range slots {
-		if slotAliased(sl, aliasedPre) || badName[string(sl.kind)+sl.name] {
-			skip[i] = true
-		}
-	}
-	if obsPre != nil {
-		for _, m := range mismatchesIdx(gPre, slots, obsPre) {
-			skip[m] = true
-		}
-	}
-	for range skip {
-		res.Hit("degraded-slots")
-	}
 	// go faults in probes are failures whatever is expected
+	fault := map[int]bool{}
 	for i, o := range obs {
 		if strings.HasPrefix(o.val, "F:") {
 			res.Fail(sigFor(last, "P", "go-fault", slots[i], nil, nil), fmt.Sprintf("after %s: probe %s => %s", histOp(last), describeSlot(cfg, slots[i]), o.val))
-			skip[i] = true
+			fault[i] = true
 		}
 	}
-	var best []mismatch
-	var bestAlt *graph
-	for k, a := range alts {
-		ms := mismatches(a, rules{}, slots, obs, skip)
-		if k == 0 || len(ms) < len(best) {
-			best, bestAlt = ms, a
+	type verdict struct {
+		gPre, bestAlt, gPost *graph
+		tm, im               []mismatch
+		opFail               [2]string
+		degraded             int
+	}
+	var best *verdict
+	seenPre := map[string]bool{}
+	for _, preHome := range []bool{false, true} {
+		gPre, aliasedPre := pre.abstract(preHome)
+		k := gPre.String() + fmt.Sprint(aliasedPre)
+		if seenPre[k] {
+			continue
 		}
-		if len(ms) == 0 {
-			break
+		seenPre[k] = true
+		v := &verdict{gPre: gPre}
+		skip := map[int]bool{}
+		for i := range fault {
+			skip[i] = true
 		}
+		badName := map[string]bool{} // names not judged at all in this transition
+		if last != nil {
+			mark := func(p int) {
+				for k := range aliasedPre { // key: <pkg digit><kind><name>
+					if int(k[0]-'0') == p {
+						badName[k[1:]] = true
+					}
+				}
+			}
+			if 0 <= last.argPk {
+				mark(last.actor)
+				mark(last.argPk)
+			} else {
+				for _, kind := range []byte{'v', 'f'} {
+					if aliasedPre[fmt.Sprintf("%d%c%s", last.actor, kind, last.arg)] {
+						badName["v"+last.arg] = true
+						badName["f"+last.arg] = true
+					}
+				}
+			}
+		}
+		for i, sl := range slots {
+			if slotAliased(sl, aliasedPre) || badName[string(sl.kind)+sl.name] {
+				skip[i] = true
+			}
+		}
+		if obsPre != nil {
+			for _, m := range mismatchesIdx(gPre, slots, obsPre) {
+				skip[m] = true
+			}
+		}
+		v.degraded = len(skip) - len(fault)
+		// the successor graphs the operation may produce
+		alts := created
+		if last != nil {
+			var mayErr bool
+			alts, mayErr = gPre.step(mut{}, *last)
+			if opErr != nil {
+				switch {
+				case opErr.GoFault:
+					v.opFail = [2]string{fmt.Sprintf("op=%s kind=go-fault", last.kind), fmt.Sprintf("%s in state %s => %s", last, gPre, opErr)}
+				case !mayErr:
+					v.opFail = [2]string{fmt.Sprintf("op=%s kind=unexpected-error class=%s", last.kind, opErr.Class), fmt.Sprintf("%s in state %s => %s", last, gPre, opErr)}
+				default:
+					alts = []*graph{gPre.clone()}
+				}
+			}
+		}
+		for k, a := range alts {
+			ms := mismatches(a, rules{}, slots, obs, skip)
+			if k == 0 || len(ms) < len(v.tm) {
+				v.tm, v.bestAlt = ms, a
+			}
+			if len(ms) == 0 {
+				break
+			}
+		}
+		reported := map[int]bool{}
+		for _, m := range v.tm {
+			for i, sl := range slots {
+				if sl == m.sl {
+					reported[i] = true
+				}
+			}
+		}
+		// I: the lookups agree with the tables of the post-state (either reading)
+		for pk, postHome := range []bool{false, true} {
+			gPost, aliasedPost := post.abstract(postHome)
+			skipI := map[int]bool{}
+			for i := range skip {
+				skipI[i] = true
+			}
+			for i := range reported {
+				skipI[i] = true
+			}
+			for i, sl := range slots {
+				if slotAliased(sl, aliasedPost) {
+					skipI[i] = true
+				}
+			}
+			// I tolerates a missing inherited copy (T is what demands that
+			// definitions are pushed to users): only something visible that the
+			// tables do not explain, or a definition the tables hold that is not
+			// reached, counts.
+			var im []mismatch
+			for _, m := range mismatches(gPost, rules{}, slots, obs, skipI) {
+				own := gPost.tab(m.sl.q, m.sl.kind)[m.sl.name]
+				if (m.got.val == "U" || m.got.val == "N") && (own == nil || own.val == unboundVal) {
+					continue
+				}
+				im = append(im, m)
+			}
+			if pk == 0 || len(im) < len(v.im) {
+				v.im, v.gPost = im, gPost
+			}
+		}
+		score := func(x *verdict) int {
+			n := len(x.tm) + len(x.im)
+			if x.opFail[0] != "" {
+				n++
+			}
+			return n
+		}
+		if best == nil || score(v) < score(best) {
+			best = v
+		}
+	}
+	for i := 0; i < best.degraded; i++ {
+		res.Hit("degraded-slots")
+	}
+	if best.opFail[0] != "" {
+		res.Fail(best.opFail[0], best.opFail[1])
 	}
 	// one failure per (package looked into, name): the forms and probes that
 	// disagree are listed in the signature
@@ -423,46 +499,12 @@ func judge(cfg *config, res *engine.Result, last *op, slots []slot, obs, obsPre 
 			g := groups[k]
 			kind := classifyMismatch(ref, g.m)
 			sig := sigFor(last, check, kind, g.m.sl, g.forms, g.probes)
-			detail := fmt.Sprintf("after %s (pre-state %s): %s [reference graph %s]", histOp(last), gPre, strings.Join(g.detail, "; "), ref)
+			detail := fmt.Sprintf("after %s (pre-state %s): %s [reference graph %s]", histOp(last), best.gPre, strings.Join(g.detail, "; "), ref)
 			res.Fail(sig, detail)
 		}
 	}
-	reported := map[int]bool{}
-	for _, m := range best {
-		for i, sl := range slots {
-			if sl == m.sl {
-				reported[i] = true
-			}
-		}
-	}
-	report("T", best, bestAlt)
-	if post != nil {
-		gPost, aliasedPost := post.abstract()
-		skipI := map[int]bool{}
-		for i := range skip {
-			skipI[i] = true
-		}
-		for i := range reported {
-			skipI[i] = true
-		}
-		for i, sl := range slots {
-			if slotAliased(sl, aliasedPost) {
-				skipI[i] = true
-			}
-		}
-		// I tolerates a missing inherited copy (T is what demands that definitions
-		// are pushed to users): only something visible that the tables do not
-		// explain, or a definition the tables hold that is not reached, counts.
-		var im []mismatch
-		for _, m := range mismatches(gPost, rules{}, slots, obs, skipI) {
-			own := gPost.tab(m.sl.q, m.sl.kind)[m.sl.name]
-			if (m.got.val == "U" || m.got.val == "N") && (own == nil || own.val == unboundVal) {
-				continue
-			}
-			im = append(im, m)
-		}
-		report("I", im, gPost)
-	}
+	report("T", best.tm, best.bestAlt)
+	report("I", best.im, best.gPost)
 }
 
 func mismatchesIdx(g *graph, slots []slot, obs []observation) (out []int) {
